@@ -46,7 +46,7 @@ use serde::{Deserialize, Serialize};
 
 use crate::{
     error::{EpbdError, Result},
-    types::{BuildingNeeds, Carrier, CType, EProd, Energy, HasValues, Meta, MetaVec, ProdSource, Service},
+    types::{BuildingNeeds, Carrier, CType, EProd, Energy, HasValues, Meta, MetaVec, Needs, ProdSource, Service},
     vecops::{veclistsum, vecvecdif, vecvecsum},
 };
 
@@ -90,7 +90,29 @@ impl fmt::Display for Components {
             .map(|v| format!("{}", v))
             .collect::<Vec<_>>()
             .join("\n");
-        write!(f, "{}\n{}", meta_lines, data_lines)
+        // Building needs (DEMANDA)
+        let needs_lines = [
+            (Service::ACS, &self.needs.ACS),
+            (Service::CAL, &self.needs.CAL),
+            (Service::REF, &self.needs.REF),
+        ]
+        .iter()
+        .filter_map(|(service, values)| {
+            values.as_ref().map(|values| {
+                Needs {
+                    service: *service,
+                    values: values.clone(),
+                }
+                .to_string()
+            })
+        })
+        .collect::<Vec<_>>()
+        .join("\n");
+        if needs_lines.is_empty() {
+            write!(f, "{}\n{}", meta_lines, data_lines)
+        } else {
+            write!(f, "{}\n{}\n{}", meta_lines, data_lines, needs_lines)
+        }
     }
 }
 
